@@ -285,21 +285,47 @@ def expect_static(recd):
     if k in ("store", "ucfs"):
         return True, ctx
     if k == "mkfn":
-        out = {}
-        full = copy.deepcopy(ctx)
-        full.update(MKFN_PROBE_CONTEXT)       # run-time context shadows the static one
-        for field in ("filename", "dirname", "fileext"):
-            if field in it[2]:
-                ok, s = fmt(it[2][field], full)
-                if ok:
-                    out[field] = s
-        return True, out
+        c = copy.deepcopy(MKFN_PROBE_CONTEXT)
+        mkfn_apply(it[2], bool(it[3]) if len(it) > 3 else False, ctx, c)
+        return True, c.get("output", {})
     if k in ("write", "cache"):
         ok, s = fmt(it[2], ctx)
         if ok:
             return True, s
         return False, it[2]
     raise ValueError(k)
+
+
+def mkfn_apply(fields, overwrite, static, c):
+    """MakeFilename(**fields, overwrite=...) with static context *static* applied to the
+    run-time context *c* (in place), as documented: formatting sees static + run-time context
+    (run-time first); an EXISTING name / prefix / suffix is looked up in the run-time context
+    only - static context reaches a value through UpdateContextFromStatic and not otherwise."""
+    for key in ("prefix", "suffix", "filename", "dirname", "fileext"):
+        if key not in fields:
+            continue
+        out = c.get("output") if isinstance(c.get("output"), dict) else None
+        if key in ("filename", "dirname", "fileext") and out is not None and key in out \
+                and not overwrite:
+            continue
+        full = copy.deepcopy(static)
+        full.update(c)                  # run-time context has precedence
+        ok, res = fmt(fields[key], full)
+        if not ok:
+            continue
+        if key in ("prefix", "suffix"):
+            existing = out.get(key) if out else None
+            if existing and not overwrite:
+                res = res + existing if key == "prefix" else existing + res
+        elif key == "filename":
+            pre = (out.get("prefix", "") if out else "") or ""
+            suf = (out.get("suffix", "") if out else "") or ""
+            res = pre + res + suf
+            if pre:
+                del out["prefix"]
+            if suf:
+                del out["suffix"]
+        merge(c, {"output": {key: res}})
 
 
 # ------------------------------------------------------------ run-time model
@@ -345,17 +371,7 @@ def run_item(it, vals, rec, flows):
         out = []
         for d, c, u in vals:
             c = copy.deepcopy(c)
-            for field in ("filename", "dirname", "fileext"):
-                if field not in fields:
-                    continue
-                if "output" in c and field in c["output"] and not overwrite:
-                    continue
-                full = copy.deepcopy(static)
-                full.update(c)          # run-time context has precedence
-                ok, s = fmt(fields[field], full)
-                if not ok:
-                    continue
-                merge(c, {"output": {field: s}})
+            mkfn_apply(fields, overwrite, static, c)
             out.append((d, c, u))
         return out
     if k in ("seq", "tuple", "bare"):
